@@ -358,6 +358,8 @@ func (p *Profile) Make(s *Sim, kind string) *Action {
 				s.Pending = append(s.Pending, f)
 			}
 		}
+	case "hooknext":
+		a.Opt["mode"] = "handled" // (the failing variant is drawn as part of the fault noise, see "faultnext")
 	case "dropsid":
 	case "raw":
 		a.Opt["method"] = pick(r, "POST", "POST", "GET", "DELETE", "PUT")
